@@ -34,6 +34,10 @@ type SchedCase struct {
 	// Tries > 1 (reproductions only): the scenario is repeated until it shows a violation, because
 	// which call wins the first lock is the Go scheduler's choice
 	Tries int `json:"tries,omitempty"`
+	// BusyPool: while the calls run, every worker of calcium's (small) task pool is occupied by
+	// other long-running requests, so the non-blocking pool refuses every task the calls submit.
+	// Only with calls whose unchanged code does not depend on a pooled task (pod and node calls).
+	BusyPool bool `json:"busy_pool,omitempty"`
 }
 
 func genC22(t *rapid.T) SchedCase {
@@ -57,9 +61,14 @@ func genC22(t *rapid.T) SchedCase {
 			}
 		}
 	}
+	kinds := []string{"addpod", "removepod", "addnode", "removenode", "create", "remove"}
+	if vt.Chance(t, "busyPool", 15) {
+		c.BusyPool = true
+		kinds = kinds[:4]
+	}
 	n := rapid.IntRange(2, 4).Draw(t, "nCalls")
 	for i := 0; i < n; i++ {
-		op := Op{Kind: rapid.SampledFrom([]string{"addpod", "removepod", "addnode", "removenode", "create", "remove"}).Draw(t, "kind")}
+		op := Op{Kind: rapid.SampledFrom(kinds).Draw(t, "kind")}
 		switch op.Kind {
 		case "addpod", "removepod":
 			op.Name = rapid.SampledFrom(podNames).Draw(t, "pod")
@@ -132,7 +141,11 @@ func runC22once(x *vt.Ctx, c SchedCase) *vt.Finding {
 		x.Label("excluded-known-finding")
 		return nil
 	}
-	w, err := buildWorld(c.Setup)
+	setup := c.Setup
+	if c.BusyPool {
+		setup.PoolSize = 64 // ample for the set-up and preparation calls, cheap to occupy
+	}
+	w, err := buildWorld(setup)
 	if err != nil {
 		x.Label("setup-rejected")
 		return nil
@@ -141,6 +154,17 @@ func runC22once(x *vt.Ctx, c SchedCase) *vt.Finding {
 	for _, op := range c.Prep {
 		runOp(w, op)
 		settle(w)
+	}
+	releasePool := func() {}
+	if c.BusyPool {
+		var occupied int
+		occupied, releasePool = w.SaturatePool()
+		defer releasePool()
+		if occupied != w.Cfg.MaxConcurrency {
+			x.Label("busy-pool-not-saturated")
+			return nil
+		}
+		x.Label("busy-pool")
 	}
 	w.IC.Begin()
 	gate := world.NewGate()
@@ -224,6 +248,7 @@ func runC22once(x *vt.Ctx, c SchedCase) *vt.Finding {
 	w.IC.SetGate(nil)
 	gate.ReleaseAll()
 	w.IC.DisarmFault()
+	releasePool()
 	if !settle(w) {
 		return vt.Failf("not-quiescent:"+kindsOf(c.Calls), "world not quiescent after the calls returned")
 	}
